@@ -21,13 +21,14 @@ type vfC20RecCase struct {
 	Window bool `json:"window"` // refuse through a closed window instead of the storage check
 	Resets []int `json:"resets,omitempty"` // camera resets after these frames
 	// Kind of the recurring condition: 0 motion start refused, 1 continuous recorder cannot start (every frame),
-	// 2 continuous recorder cannot stop (every frame, max-secs 0), 3 frame write failing during a recording
+	// 2 continuous recorder cannot stop (every frame, max-secs 0), 3 frame write failing during a recording,
+	// 4 two conditions at once, their messages alternating: motion start refused and continuous recorder cannot start
 	Kind int `json:"kind,omitempty"`
 }
 
 func vfGenC20Rec(t *rapid.T) vfC20RecCase {
 	c := vfC20RecCase{Frames: rapid.IntRange(2, 120).Draw(t, "frames"), Window: rapid.Bool().Draw(t, "window")}
-	c.Kind = rapid.IntRange(0, 3).Draw(t, "kind")
+	c.Kind = rapid.IntRange(0, 4).Draw(t, "kind")
 	for i := rapid.IntRange(0, 3).Draw(t, "nresets"); i > 0; i-- {
 		c.Resets = append(c.Resets, rapid.IntRange(0, c.Frames-1).Draw(t, "resetafter"))
 	}
@@ -72,6 +73,10 @@ func vfRunC20Rec(c vfC20RecCase) *kit.Result {
 		}
 		want = "Failed to write to CPTV file"
 	}
+	if c.Kind == 4 {
+		rc.Cfg.Cont = true
+		rc.Faults.CStart = all
+	}
 	if c.Window && c.Kind == 0 {
 		rc.Cfg.WinStart, rc.Cfg.WinEnd = 600, 660 // 10:00-11:00, clock at 12:30
 	}
@@ -81,8 +86,8 @@ func vfRunC20Rec(c vfC20RecCase) *kit.Result {
 		resetAfter[i] = true
 	}
 	for i := 0; i < c.Frames; i++ {
-		rc.Ev = append(rc.Ev, vfEv{K: vfEvFrame, M: c.Kind == 0 || c.Kind == 3, T: 12*3600 + 1800})
-		if !c.Window && c.Kind == 0 {
+		rc.Ev = append(rc.Ev, vfEv{K: vfEvFrame, M: c.Kind == 0 || c.Kind == 3 || c.Kind == 4, T: 12*3600 + 1800})
+		if (!c.Window && c.Kind == 0) || c.Kind == 4 {
 			rc.Faults.Check = append(rc.Faults.Check, i)
 		}
 		if resetAfter[i] && c.Kind == 0 {
@@ -93,6 +98,16 @@ func vfRunC20Rec(c vfC20RecCase) *kit.Result {
 	run := vfDrive(rc, nil)
 	if run.panicked != "" {
 		r.Failf("%s", run.panicked)
+		return r
+	}
+	if c.Kind == 4 {
+		// two different messages alternate, so each one differs from the line printed last: the limiter's rule
+		// (suppress only a repeat of the last printed line) lets every one of them through
+		a, b := strings.Count(buf.String(), "Recording not started"), strings.Count(buf.String(), "error with starting constant recorder")
+		if a != c.Frames || b < c.Frames {
+			r.Failf("two conditions recurring on %d consecutive frames, their messages alternating, produced %d / %d lines; none of them repeats the line printed last, so all must appear (%d / at least %d):\n%s", c.Frames, a, b, c.Frames, c.Frames, vfHead(buf.String(), 400))
+		}
+		r.NT = c.Frames >= 50
 		return r
 	}
 	lines := strings.Count(buf.String(), want)
@@ -110,7 +125,7 @@ func vfRunC20Rec(c vfC20RecCase) *kit.Result {
 
 func TestVF_C20_Recorder(t *testing.T) {
 	kit.Drive(t, "C20", "TestVF_C20_Recorder",
-		"generated: a single condition recurring on 2-120 consecutive frames - a motion start refused (storage check failing, or window closed, with up to 3 camera resets in between), the continuous recorder unable to start, unable to stop, or every frame write of a long recording failing - through a real MotionProcessor within far less than a minute of real time. Oracle: the recorder's interval is one minute and exactly one line for that condition is logged (and at most 3 lines in all). Non-trivial: at least 50 refused frames.",
+		"generated: a single condition recurring on 2-120 consecutive frames - a motion start refused (storage check failing, or window closed, with up to 3 camera resets in between), the continuous recorder unable to start, unable to stop, or every frame write of a long recording failing, or two of these at once with alternating messages - through a real MotionProcessor within far less than a minute of real time. Oracle: the recorder's interval is one minute and exactly one line for that condition is logged (and at most 3 lines in all); alternating messages of two conditions are all printed. Non-trivial: at least 50 refused frames.",
 		vfGenC20Rec, vfRunC20Rec)
 }
 
